@@ -200,8 +200,7 @@ def run_native(binary, spec_text, wdir, name, env=None, timeout=600):
 def main(tier, seed):
     t0 = time.time()
     battery_selftest()
-    wdir = os.path.join(B.WORK, ID)
-    os.makedirs(wdir, exist_ok=True)
+    wdir = B.workdir(ID)
     rng = random.Random(seed * 65537 + 19)
     runs = []
     viol = []
@@ -368,8 +367,7 @@ def replay(path):
         if l.startswith("battery "):
             _, bid, req = l.split(" ", 2)
             bats.setdefault(bid, []).append(req)
-    wdir = os.path.join(B.WORK, ID)
-    os.makedirs(wdir, exist_ok=True)
+    wdir = B.workdir(ID)
     bad = 0
     for profile in ("dev", "release"):
         binary = B.build(profile, ())
